@@ -524,6 +524,22 @@ where Pr: VInt + Into<f64>, f64: AsPrimitive<Pr>, i8: AsPrimitive<Pr>, u8: AsPri
     let rows = rows_of(&case["table"]);
     let nn = n as i64 - 1;
     let hints: &[Hint] = &HINTS;
+    if n == 1 {
+        // single-symbol and empty supports: documented to panic; whatever is built instead must not be a degenerate model
+        rep.class("leaky_single_symbol_support");
+        if mode == "c19" || mode == "c20" {
+            for (lo, hi) in [(5i32, 5i32), (-3, -3), (0, 0), (5, 4), (0, -1)] {
+                match guarded(|| LeakyQuantizer::<f64, i32, Pr, P>::new(lo..=hi)) {
+                    Err(msg) => { if mode == "c20" && is_ub_panic(&msg) { rep.mismatch(case, format!("LeakyQuantizer::new({}..={}): {}", lo, hi, msg)); } }
+                    Ok(q) => {
+                        rep.class("leaky_invalid_support_accepted");
+                        let model = q.quantize(probability::distribution::Gaussian::new(lo as f64, 2.0));
+                        run!(rep, case, contract_dec::<_, P>(&format!("LeakyQuantizer::<f64, i32, _, {}>::new({}..={}) (a support of {} symbols, documented to panic).quantize(Gaussian)", P, lo, hi, hi - lo + 1), &model).map(|_| 1));
+                    }
+                }
+            }
+        }
+    }
     if case["sparse"].as_bool().unwrap_or(false) {
         rep.class("leaky_big_support");
         leaky_sym::<Pr, i8, P>(case, mode, rep, &k, m, n, accept, &rows, &[-128, -100, 127 - nn], hints);
@@ -585,6 +601,37 @@ where Pr: VInt + Into<usize> + AsPrimitive<usize> + Into<f64> + Into<f32>, usize
                 chk!(format!("reverse_cross_entropy_base2::<f32>({:?})", q), m.reverse_cross_entropy_base2::<f32>(q32.iter().cloned()) as f64, rf["rcross_num"].as_i64().unwrap() as f64 / den, 1e-5);
             } else { rep_zero_ref(); }
         }
+        // the same diagnostics on every other iterable representation of the model (several of them override the defaults)
+        macro_rules! diag_repr { ($name:expr, $m:expr) => {{
+            let m2 = $m; let nm: &str = $name;
+            chk!(format!("{}::entropy_base2::<f64>", nm), m2.entropy_base2::<f64>(), h, 1e-12);
+            chk!(format!("{}::entropy_base2::<f32>", nm), m2.entropy_base2::<f32>() as f64, h, 1e-5);
+            let t64: Vec<(f64, f64)> = m2.floating_point_symbol_table::<f64>().map(|(_, c, p)| (c, p)).collect();
+            let t32: Vec<(f32, f32)> = m2.floating_point_symbol_table::<f32>().map(|(_, c, p)| (c, p)).collect();
+            if t64.len() != n || t32.len() != n { out.push(format!("{}::floating_point_symbol_table has {} / {} entries for {} symbols", nm, t64.len(), t32.len(), n)); }
+            let mut acc = 0u64;
+            for (i, p) in probs.iter().enumerate() { if i < t64.len() && i < t32.len() { checks += 2;
+                if !close(t64[i].0, acc as f64 / den, 1e-15) || !close(t64[i].1, *p as f64 / den, 1e-15) { out.push(format!("{}::floating_point_symbol_table::<f64> entry {} = {:?}, exact ({}, {})", nm, i, t64[i], acc as f64 / den, *p as f64 / den)); }
+                if !close(t32[i].0 as f64, acc as f64 / den, 1e-6) || !close(t32[i].1 as f64, *p as f64 / den, 1e-6) { out.push(format!("{}::floating_point_symbol_table::<f32> entry {} = {:?}, exact ({}, {})", nm, i, t32[i], acc as f64 / den, *p as f64 / den)); } }
+                acc += p; }
+            for rf in case["refs"].as_array().unwrap() {
+                let q: Vec<f64> = rf["q"].as_array().unwrap().iter().map(|x| x.as_u64().unwrap() as f64 / 4.0).collect();
+                chk!(format!("{}::cross_entropy_base2({:?})", nm, q), m2.cross_entropy_base2::<f64>(q.iter().cloned()), rf["cross_num"].as_i64().unwrap() as f64 / 4.0, 1e-12);
+                chk!(format!("{}::kl_divergence_base2({:?})", nm, q), m2.kl_divergence_base2::<f64>(q.iter().cloned()), rf["kl_num"].as_i64().unwrap() as f64 / 4.0, 1e-12);
+                if rf["allpos"].as_bool().unwrap() {
+                    chk!(format!("{}::reverse_cross_entropy_base2({:?})", nm, q), m2.reverse_cross_entropy_base2::<f64>(q.iter().cloned()), rf["rcross_num"].as_i64().unwrap() as f64 / den, 1e-12);
+                    chk!(format!("{}::reverse_kl_divergence_base2({:?})", nm, q), m2.reverse_kl_divergence_base2::<f64>(q.iter().cloned()), rf["rkl_num"].as_i64().unwrap() as f64 / den, 1e-12);
+                }
+            }
+        }} }
+        let syms: Vec<i32> = (0..n as i32).collect();
+        diag_repr!("NonContiguousCategoricalDecoderModel", ND::<i32, Pr, P>::from_symbols_and_nonzero_fixed_point_probabilities(syms.iter().cloned(), pv.iter(), false).expect("valid table"));
+        diag_repr!("ContiguousCategoricalEntropyModel::as_view", m.as_view());
+        diag_repr!("to_generic_decoder_model", m.to_generic_decoder_model());
+        if P <= 12 {
+            diag_repr!("ContiguousLookupDecoderModel", CL::<Pr, P>::from_nonzero_fixed_point_probabilities(pv.iter(), false).expect("valid table"));
+            diag_repr!("NonContiguousLookupDecoderModel", NL::<i32, Pr, P>::from_symbols_and_nonzero_fixed_point_probabilities(syms.iter().cloned(), pv.iter(), false).expect("valid table"));
+        }
         // a uniform model with a power-of-two range is dyadic too
         if probs.iter().all(|p| *p == probs[0]) { let u = UniformModel::<Pr, P>::new(n); chk!("UniformModel::entropy_base2", u.entropy_base2::<f64>(), h, 1e-12); }
         (out, checks)
@@ -617,8 +664,14 @@ where Pr: VInt + Into<usize> + AsPrimitive<usize> + Into<f64> + AsPrimitive<F>, 
         Built::Refused => { rep.class("ctor_refused"); }
         Built::Model(m) => { rep.class("ctor_ok"); if (must_reject && mode == "c19") || (!must_reject && mode == "c03") || mode == "c20" { run!(rep, case, $chk(&nm, m).map(|_| 1)); } } } }} }
     let total: F = w.iter().copied().sum();
-    for norm in [None, Some(total)] {
-        if norm.is_some() && must_reject { continue; }       // a normalisation is only documented for valid tables
+    // normalisations: none, the exact sum, and - for tables with an invalid entry (NaN, negative, infinite), whose exact sum is not
+    // a usable normalisation - the sum of the valid entries and 1: the invalid ENTRY must still be refused (C19: any input)
+    let valid_sum: F = w.iter().copied().filter(|x| x.is_finite() && *x >= F::zero()).sum();
+    let has_invalid_entry = w.iter().any(|x| !(x.is_finite() && *x >= F::zero()));
+    let mut norms = vec![None, Some(total)];
+    if has_invalid_entry { norms.push(Some(valid_sum)); norms.push(Some(F::one())); rep.class("float_invalid_entry_with_explicit_normalization"); }
+    for norm in norms {
+        if norm == Some(total) && must_reject { continue; }  // (the exact sum of an invalid table is NaN / infinite / not positive: covered by None)
         ctor!("ContiguousCategoricalEntropyModel::from_floating_point_probabilities_fast", build(|| CC::<Pr, P>::from_floating_point_probabilities_fast(&w, norm)), |nm: &str, m: &CC<Pr, P>| contract_dec::<_, P>(nm, m).and_then(|_| contract_enc::<_, P>(nm, m, &(0..n + 2).collect::<Vec<usize>>())));
         ctor!("LazyContiguousCategoricalEntropyModel::from_floating_point_probabilities_fast", build(|| LZ::<Pr, F, P>::from_floating_point_probabilities_fast(w.clone(), norm)), |nm: &str, m: &LZ<Pr, F, P>| contract_dec::<_, P>(nm, m).and_then(|_| contract_enc::<_, P>(nm, m, &(0..n + 2).collect::<Vec<usize>>())));
         ctor!("ContiguousLookupDecoderModel::from_floating_point_probabilities_fast", build(|| CL::<Pr, P>::from_floating_point_probabilities_fast(&w, norm)), contract_dec::<CL<Pr, P>, P>);
